@@ -158,6 +158,23 @@ theorem resolveList_mem {N : List (String × Nat)} {R : List (String × String)}
           · obtain ⟨r', hr', hy'⟩ := ih2 y hy
             exact ⟨r', List.mem_cons_of_mem _ hr', hy'⟩
 
+theorem resolveList_length {N : List (String × Nat)} {R : List (String × String)} {l : List String}
+    {res : List (Option Nat)} (h : resolveList N R l = .ok res) : res.length = l.length := by
+  induction l generalizing res with
+  | nil => simp [resolveList] at h; subst h; rfl
+  | cons x xs ih =>
+    unfold resolveList at h
+    cases h1 : resolve N R x with
+    | error e => simp [h1] at h
+    | ok r =>
+      simp only [h1] at h
+      cases h2 : resolveList N R xs with
+      | error e => simp [h2] at h
+      | ok l' =>
+        simp only [h2, Except.ok.injEq] at h
+        subst h
+        simp [ih h2]
+
 theorem resolveList_total {N : List (String × Nat)} {R : List (String × String)} {l : List String}
     (h : ∀ x ∈ l, ∃ r, resolve N R x = .ok r) : ∃ res, resolveList N R l = .ok res := by
   induction l with
@@ -211,6 +228,56 @@ theorem parentsOf_congr {s s' : Sys π ν} {n : Nat} (h1 : s'.preds n = s.preds 
         have : 1 < (s.preds n).length := by omega
         simp [this, hp, hx]
 
+theorem resolveList_map {N N' : List (String × Nat)} {R R' : List (String × String)} {l : List String}
+    {f : String → String} {res : List (Option Nat)} (h : resolveList N R l = .ok res)
+    (hall : ∀ x ∈ l, ∀ r, resolve N R x = .ok r → resolve N' R' (f x) = .ok r) :
+    resolveList N' R' (l.map f) = .ok res := by
+  induction l generalizing res with
+  | nil => simpa [resolveList] using h
+  | cons x xs ih =>
+    unfold resolveList at h
+    simp only [List.map_cons]
+    unfold resolveList
+    cases h1 : resolve N R x with
+    | error e => simp [h1] at h
+    | ok r =>
+      simp only [h1] at h
+      cases h2 : resolveList N R xs with
+      | error e => simp [h2] at h
+      | ok l' =>
+        simp only [h2, Except.ok.injEq] at h
+        rw [hall x (by simp) r h1, ih h2 (fun y hy => hall y (List.mem_cons_of_mem _ hy))]
+        simp [h]
+
+/-- `parentsOf` when the recorded names are rewritten by `f` and every consulted name keeps its meaning -/
+theorem parentsOf_map {s s' : Sys π ν} {n : Nat} (f : String → String) (h1 : s'.preds n = s.preds n)
+    (h2 : dget s'.pnames n = (dget s.pnames n).map (List.map f)) {l : List (Option Nat)}
+    (h : s.parentsOf n = .ok l)
+    (h3 : ∀ x ∈ s.consulted n, ∀ r, resolve s.nodes s.rails x = .ok r → resolve s'.nodes s'.rails (f x) = .ok r) :
+    s'.parentsOf n = .ok l := by
+  unfold Sys.parentsOf at h ⊢
+  simp only [h1, h2]
+  split
+  · next hle => simpa [hle] using h
+  · next hle =>
+    simp only [hle, if_false] at h
+    cases hp : dget s.pnames n with
+    | none => simp [hp] at h
+    | some pl =>
+      simp only [hp, Option.map_some, List.length_map] at h ⊢
+      split
+      · next hlt => simp [hlt] at h
+      · next hlt =>
+        simp only [hlt, if_false] at h
+        rw [resolveAll_eq] at h ⊢
+        rw [← List.map_take]
+        apply resolveList_map h
+        intro x hx r hr
+        apply h3 x _ r hr
+        unfold Sys.consulted
+        have : 1 < (s.preds n).length := by omega
+        simp [this, hp, hx]
+
 /-- the resolved inputs of a multi-input node are what its consulted names resolve to -/
 theorem parentsOf_multi {s : Sys π ν} {n : Nat} (hm : 1 < (s.preds n).length) {l : List (Option Nat)}
     (h : s.parentsOf n = .ok l) :
@@ -237,7 +304,7 @@ theorem parentsOf_single {s : Sys π ν} {n : Nat} (hm : (s.preds n).length ≤ 
 theorem parentsOf_ok {s : Sys π ν} (hw : WFr s) {p : Nat × π} (hp : p ∈ s.comps) :
     ∃ l, s.parentsOf p.1 = .ok l ∧ (∀ x ∈ l, ∃ q ∈ s.preds p.1, x = some q) ∧ (l = [] ↔ s.preds p.1 = []) := by
   by_cases hm : 1 < (s.preds p.1).length
-  · obtain ⟨l, hl, hl'⟩ := hw.inputs p hp hm
+  · obtain ⟨l, hl, hl', _⟩ := hw.inputs p hp hm
     refine ⟨l, hl, hl', ?_⟩
     constructor
     · intro he
